@@ -1,5 +1,5 @@
 """C06 - inline and dynamic constraints bind to exactly one call and to the right object."""
-from .. import engine, fam_mc, fam_inst
+from .. import engine, fam_mc, fam_inst, fam_soft
 
 LEVEL = "model_checking"
 
@@ -7,6 +7,9 @@ LEVEL = "model_checking"
 def run(tier, seed, limit=0):
     chk = engine.Check("C06", tier, seed)
     scs = fam_inst.family_dyn(tier, seed)
+    # a dynamic block with a soft constraint referenced before a conflicting inline soft, repeated: nothing of a call may
+    # survive into the next one (soft priorities included)
+    scs += [x for x in fam_soft.family_soft_struct(tier, seed) if "/dyn_soft/" in x["id"]]
     mc_scs, sim_states = fam_mc.family_mc(tier, seed)          # TLC-generated behaviours of MC_VscRand, replayed
     scs = scs + mc_scs
     chk.extra_cov["tlc_generated_histories_replayed"] = len(mc_scs)
